@@ -269,7 +269,7 @@ func edgeShape(r *rand.Rand, key uint64) iset {
 		return normalize(sp)
 	}
 	L := uint64(1 + r.Intn(300))
-	switch r.Intn(24) {
+	switch r.Intn(26) {
 	case 0:
 		return mk(65535-L, 65535) // run ending at the upper edge
 	case 1:
@@ -299,7 +299,7 @@ func edgeShape(r *rand.Rand, key uint64) iset {
 		return mk(10, 19, 100, 163, 1000, 1000+L, 4090, 4100, 65535-L, 65535)
 	case 7: // several runs, none at the edges
 		return mk(10, 19, 30, 30, 100, 163, 1000, 1000+L, 4090, 4100, 50000, 50000+5*L)
-	case 8:
+	case 8, 24, 25:
 		return mk(0, 65535) // full
 	case 9:
 		return mk(0, 65534) // full but the last
